@@ -28,7 +28,7 @@ pub fn def() -> PropDef {
                derived from a culled value is a real tree over the culled leaf (not culled again before it grows past the limit). \
                distinct = hash of (bytecode, limit); non-trivial = at least one value was culled during the run",
         assumptions: &[
-            "SLoad, StorageWrite, UnwrittenStorageValue and Concat wrappers are synthetic (built without a limit) and are not counted as instruction results",
+            "StorageWrite, UnwrittenStorageValue and Concat wrappers are synthetic (built without a limit, at most twice the limit plus one) and are not counted as instruction results; SLoad results are (they were exempt until the SLOAD doubling defect was found and repaired)",
         ],
         run_shard,
         replay,
@@ -101,8 +101,41 @@ fn directed(ch: &mut Chooser) -> Case {
     }
 }
 
+/// one instruction (or short group) applied again and again to its own result: loads of loads, hashes of
+/// hashes, queries of queries; short enough to stay cheap
+fn chain(ch: &mut Chooser) -> Case {
+    let source: &[u8] = *ch.pick(&[&[0x33u8][..], &[0x34], &[0x5f, 0x35], &[0x5f, 0x54], &[0x60, 0x07]]);
+    let unit: &[u8] = *ch.pick(&[
+        &[0x54u8][..],       // SLOAD
+        &[0x51],             // MLOAD
+        &[0x35],             // CALLDATALOAD
+        &[0x31],             // BALANCE
+        &[0x3b],             // EXTCODESIZE
+        &[0x3f],             // EXTCODEHASH
+        &[0x40],             // BLOCKHASH
+        &[0x15],             // ISZERO
+        &[0x80, 0x54, 0x01], // DUP1 SLOAD ADD
+        &[0x80, 0x55, 0x5f, 0x54], // DUP1 SSTORE PUSH0 SLOAD (store under itself, load slot 0)
+        &[0x5f, 0x52, 0x60, 0x20, 0x5f, 0x20], // PUSH0 MSTORE PUSH1 32 PUSH0 SHA3
+        &[0x5f, 0x52, 0x5f, 0x51, 0x54],       // PUSH0 MSTORE PUSH0 MLOAD SLOAD
+    ]);
+    let n = *ch.pick(&[3usize, 8, 12, 20, 40, 64, 130, 300]);
+    let mut code = source.to_vec();
+    for _ in 0..n {
+        code.extend_from_slice(unit);
+    }
+    code.extend_from_slice(*ch.pick(&[&[0x5fu8, 0x55, 0x00][..], &[0x5f, 0x52, 0x00], &[0x50, 0x00], &[0x00]]));
+    Case {
+        bytes: code,
+        limit: *ch.pick(&[1usize, 2, 3, 5, 8, 13, 30, 100, 250, 1000]),
+        kind: "chain".into(),
+        expect_top_nodes: None,
+    }
+}
+
 pub fn gen_case(ch: &mut Chooser) -> Case {
-    match ch.below(10) {
+    match ch.below(11) {
+        10 => chain(ch),
         0..=2 => directed(ch),
         3..=6 => {
             let l = g_loop(ch);
@@ -125,7 +158,7 @@ pub fn gen_case(ch: &mut Chooser) -> Case {
 fn is_wrapper(v: &RuntimeBoxedVal) -> bool {
     matches!(
         v.data(),
-        RSVD::SLoad { .. } | RSVD::StorageWrite { .. } | RSVD::UnwrittenStorageValue { .. } | RSVD::Concat { .. }
+        RSVD::StorageWrite { .. } | RSVD::UnwrittenStorageValue { .. } | RSVD::Concat { .. }
     )
 }
 
